@@ -162,21 +162,98 @@ theorem replaceAt_get (ty : Ty) : ∀ (idxs : List Nat) (types : List Ty) (j : N
     · have : ¬ i = j := fun e => hji e.symm
       simp [hji, this]
 
+theorem idxsFrom_get (p : Ty → Bool) : ∀ (ts : List Ty) (o k j : Nat), (idxsFrom p o ts)[k]? = some j →
+    o ≤ j ∧ ∃ t, ts[j - o]? = some t ∧ p t = true ∧ (ts.filter p)[k]? = some t
+  | [], _, _, _, h => by simp [idxsFrom] at h
+  | t :: ts, o, k, j, h => by
+    simp only [idxsFrom] at h
+    by_cases hp : p t = true
+    · simp only [hp, if_true] at h
+      cases k with
+      | zero =>
+        simp at h; subst h
+        exact ⟨Nat.le_refl _, t, by simp, hp, by simp [List.filter, hp]⟩
+      | succ k =>
+        simp only [List.getElem?_cons_succ] at h
+        obtain ⟨ho, t', ht', hp', hf⟩ := idxsFrom_get p ts (o + 1) k j h
+        refine ⟨by omega, t', ?_, hp', by simp [List.filter, hp, hf]⟩
+        have : j - o = (j - (o + 1)) + 1 := by omega
+        rw [this]; simpa using ht'
+    · have hpf : p t = false := by simpa using hp
+      simp only [hpf, Bool.false_eq_true, if_false] at h
+      obtain ⟨ho, t', ht', hp', hf⟩ := idxsFrom_get p ts (o + 1) k j h
+      refine ⟨by omega, t', ?_, hp', by simp [List.filter, hp, hf]⟩
+      have : j - o = (j - (o + 1)) + 1 := by omega
+      rw [this]; simpa using ht'
+
+theorem idxsFrom_length (p : Ty → Bool) : ∀ (ts : List Ty) (o : Nat), (idxsFrom p o ts).length = (ts.filter p).length
+  | [], _ => rfl
+  | t :: ts, o => by
+    by_cases hp : p t = true <;> simp [idxsFrom, List.filter, hp, idxsFrom_length p ts (o + 1)]
+
+theorem idxsFrom_mem (p : Ty → Bool) : ∀ (ts : List Ty) (o j : Nat),
+    j ∈ idxsFrom p o ts ↔ o ≤ j ∧ ∃ t, ts[j - o]? = some t ∧ p t = true
+  | [], _, _ => by simp [idxsFrom]
+  | t :: ts, o, j => by
+    have ih := idxsFrom_mem p ts (o + 1) j
+    by_cases hp : p t = true
+    · simp only [idxsFrom, hp, if_true, List.mem_cons, ih]
+      constructor
+      · rintro (rfl | ⟨ho, t', ht', hp'⟩)
+        · exact ⟨Nat.le_refl _, t, by simp, hp⟩
+        · refine ⟨by omega, t', ?_, hp'⟩
+          have : j - o = (j - (o + 1)) + 1 := by omega
+          rw [this]; simpa using ht'
+      · rintro ⟨ho, t', ht', hp'⟩
+        by_cases hj : j = o
+        · exact .inl hj
+        · right
+          refine ⟨by omega, t', ?_, hp'⟩
+          have : j - o = (j - (o + 1)) + 1 := by omega
+          rw [this] at ht'; simpa using ht'
+    · have hpf : p t = false := by simpa using hp
+      simp only [idxsFrom, hpf, Bool.false_eq_true, if_false, ih]
+      constructor
+      · rintro ⟨ho, t', ht', hp'⟩
+        refine ⟨by omega, t', ?_, hp'⟩
+        have : j - o = (j - (o + 1)) + 1 := by omega
+        rw [this]; simpa using ht'
+      · rintro ⟨ho, t', ht', hp'⟩
+        have hj : j ≠ o := by
+          intro e; subst e; simp at ht'; subst ht'; exact hp hp'
+        refine ⟨by omega, t', ?_, hp'⟩
+        have : j - o = (j - (o + 1)) + 1 := by omega
+        rw [this] at ht'; simpa using ht'
+
+theorem idxsFrom_nodup (p : Ty → Bool) : ∀ (ts : List Ty) (o : Nat), (idxsFrom p o ts).Nodup
+  | [], _ => by simp [idxsFrom]
+  | t :: ts, o => by
+    by_cases hp : p t = true
+    · simp only [idxsFrom, hp, if_true, List.nodup_cons]
+      refine ⟨?_, idxsFrom_nodup p ts (o + 1)⟩
+      intro hm
+      have := ((idxsFrom_mem p ts (o + 1) o).mp hm).1
+      omega
+    · have hpf : p t = false := by simpa using hp
+      simp only [idxsFrom, hpf, Bool.false_eq_true, if_false]
+      exact idxsFrom_nodup p ts (o + 1)
+
 theorem idxsOf_mem {p : Ty → Bool} {types : List Ty} {i : Nat} :
     i ∈ idxsOf p types ↔ ∃ t, types[i]? = some t ∧ p t = true := by
-  simp only [idxsOf, List.mem_filter, List.mem_range]
-  constructor
-  · rintro ⟨hi, h⟩
-    have : types[i]? = some types[i] := List.getElem?_eq_getElem hi
-    rw [this] at h
-    exact ⟨_, this, h⟩
-  · rintro ⟨t, ht, hp⟩
-    have hi : i < types.length := (List.getElem?_eq_some_iff.mp ht).1
-    exact ⟨hi, by simp [ht, hp]⟩
+  simp [idxsOf, idxsFrom_mem]
 
 theorem idxsOf_lt {p : Ty → Bool} {types : List Ty} {i : Nat} (h : i ∈ idxsOf p types) : i < types.length := by
   obtain ⟨t, ht, _⟩ := idxsOf_mem.mp h
   exact (List.getElem?_eq_some_iff.mp ht).1
+
+theorem idxsOf_get {p : Ty → Bool} {types : List Ty} {k j : Nat} (h : (idxsOf p types)[k]? = some j) :
+    ∃ t, types[j]? = some t ∧ p t = true ∧ (types.filter p)[k]? = some t := by
+  simpa using (idxsFrom_get p types 0 k j h).2
+
+theorem idxsOf_length (p : Ty → Bool) (types : List Ty) : (idxsOf p types).length = (types.filter p).length :=
+  idxsFrom_length p types 0
+
+theorem idxsOf_nodup (p : Ty → Bool) (types : List Ty) : (idxsOf p types).Nodup := idxsFrom_nodup p types 0
 
 end Unify
 end CtyModel
